@@ -197,6 +197,7 @@ def results_equal_bitwise(a, b):
 # a flow below this is "numerically flowless" for relative comparisons: with step tolerances of 1e-9 the
 # absolute error of a mass flow is ~1e-12..1e-9, i.e. a relative error of 1e-5 or worse for such flows
 ZERO_FLOW_ABS = 1e-5
+EXACT_ZERO_FLOW_ABS = 1e-13   # radial nets: flows are exact sums of loads, only round-off is "flowless"
 ZERO_FLOW_SENSITIVE = ("lambda", "reynolds", "t_from_k", "t_to_k", "t_outlet_k", "normfactor_from", "normfactor_to",
                        "v_from_m_per_s", "v_to_m_per_s", "v_mean_m_per_s", "vdot_norm_m3_per_s", "vdot_m3_per_s")
 
@@ -255,8 +256,11 @@ def _atol_for(col, default):
     return default
 
 
-def results_close(a, b, rtol=1e-9, atol=1e-12, tables=None, index_map=None, mask_zero_flow=False, skip_junction_t=None):
-    """Tolerance comparison (different fp programs). index_map: {table: {idx_a: idx_b}}."""
+def results_close(a, b, rtol=1e-9, atol=1e-12, tables=None, index_map=None, mask_zero_flow=False, skip_junction_t=None,
+                  exact_flows=False):
+    """Tolerance comparison (different fp programs). index_map: {table: {idx_a: idx_b}}.
+    exact_flows: the net is radial, i.e. branch flows are exact sums of loads - only round-off flows (< 1e-13 kg/s)
+    count as flowless and flow-derived quantities get no extra relative slack."""
     diffs = []
     ta, tb = result_tables(a), result_tables(b)
     for t in sorted(set(ta) | set(tb)):
@@ -286,7 +290,7 @@ def results_close(a, b, rtol=1e-9, atol=1e-12, tables=None, index_map=None, mask
             ma = np.abs(da["mdot_from_kg_per_s"].values.astype(np.float64))
             mb = np.abs(db["mdot_from_kg_per_s"].values.astype(np.float64))
             scale = max(np.nanmax(ma) if len(ma) and not np.all(np.isnan(ma)) else 0.0, 1e-3)
-            thr = max(1e-6 * scale, ZERO_FLOW_ABS)
+            thr = max(1e-6 * scale, ZERO_FLOW_ABS) if not exact_flows else EXACT_ZERO_FLOW_ABS
             zero_rows = (ma < thr) | (mb < thr)
         for c in da.columns:
             va = da[c].values.astype(np.float64)
@@ -310,7 +314,7 @@ def results_close(a, b, rtol=1e-9, atol=1e-12, tables=None, index_map=None, mask
             rt = rtol
             if mask_zero_flow and "mdot_from_kg_per_s" in da.columns and c.startswith(FLOW_DERIVED) and len(va) == len(da):
                 mm = np.minimum(np.abs(da["mdot_from_kg_per_s"].values.astype(np.float64)), np.abs(db["mdot_from_kg_per_s"].values.astype(np.float64)))
-                rt = np.maximum(rtol, MDOT_ABS_ERR / np.maximum(mm, ZERO_FLOW_ABS))[~nan_a]
+                rt = np.maximum(rtol, (MDOT_ABS_ERR if not exact_flows else 1e-15) / np.maximum(mm, ZERO_FLOW_ABS if not exact_flows else EXACT_ZERO_FLOW_ABS))[~nan_a]
             x_, y_ = va[~nan_a], vb[~nan_b]
             ok = np.abs(x_ - y_) <= col_atol + rt * np.abs(y_)
             if not np.all(ok):
